@@ -21,3 +21,82 @@ MUTANTS = [
          old="    svs = absmax(resp_v, axis=1)\n", new="    svs = absmax(resp_v, axis=1)\n    if len(svs) > 3:\n        svs = np.maximum(svs, 1e-6 * svs.max())\n",
          why="true S_v of one period depends on the others in big batches"),
 ]
+
+# ---- window mutants (mid-range enumerations): below the threshold the pinned code runs, above it a subtly wrong variant
+_LOOP = "    for i in range(len(acc) - 1):  # possibly speed up using scipy.signal.lfilter\n"
+_BODY = ("        resp_u[s:, i + 1] = (a[0][0] * resp_u[s:, i] + a[0][1] * resp_v[s:, i] + b[0][0] * acc[i] + b[0][1] * acc[i + 1])\n"
+         "        resp_v[s:, i + 1] = (a[1][0] * resp_u[s:, i] + a[1][1] * resp_v[s:, i] + b[1][0] * acc[i] + b[1][1] * acc[i + 1])\n")
+_CMT = "        # x_i+1 = A cross (u, v) + B cross (acc_i, acc_i+1)  # Eq 2.7a\n"
+_ALLOC = ("    resp_u = np.zeros([len(periods), len(acc)], dtype=float)\n"
+          "    resp_v = np.zeros([len(periods), len(acc)], dtype=float)\n")
+_PSEUDO = ("    resp_u, resp_v, resp_a = nigam_and_jennings_response(motion, dt, periods, xi)\n\n"
+           "    sds = absmax(resp_u, axis=1)\n")
+_TRUE = ("    resp_u, resp_v, resp_a = nigam_and_jennings_response(motion, dt, periods, xi)\n"
+         "    sas = absmax(resp_a, axis=1)\n")
+MUTANTS += [
+    dict(id="c02-w-seam-load-5000", prop="C02", file="eqsig/sdof.py", old=_LOOP + _CMT + _BODY,
+         new="    seam = 2048 if len(acc) > 5000 else 0\n" + _LOOP +
+             "        j = i if (seam and i >= 2 * seam and i % seam == 0) else i + 1  # first step of a block reuses the previous sample\n" +
+             _BODY.replace("acc[i + 1]", "acc[j]"),
+         why="window: records longer than 5 000 samples are integrated in blocks of 2048 steps aligned to the absolute index; from the "
+             "third block on the first step of a block takes the old load sample (not shift invariant, not refinement invariant)"),
+    dict(id="c02-w-pseudo-decimated-peak-2e6", prop="C02", file="eqsig/sdof.py", old=_PSEUDO,
+         new="    resp_u, resp_v, resp_a = nigam_and_jennings_response(motion, dt, periods, xi)\n\n"
+             "    if len(periods) * len(motion) > 2000000:\n        sds = absmax(resp_u[:, ::2], axis=1)  # every other sample\n"
+             "    else:\n        sds = absmax(resp_u, axis=1)\n",
+         why="window: above 2e6 response values pseudo_response_spectra takes the peak over every other sample"),
+    dict(id="c02-w-true-dropped-tail-20000", prop="C02", file="eqsig/sdof.py", old=_TRUE,
+         new="    resp_u, resp_v, resp_a = nigam_and_jennings_response(motion, dt, periods, xi)\n"
+             "    if resp_u.shape[1] > 20000:  # reduce over whole blocks of 8192 samples\n"
+             "        m = (resp_u.shape[1] // 8192) * 8192\n"
+             "        resp_u, resp_v, resp_a = resp_u[:, :m], resp_v[:, :m], resp_a[:, :m]\n"
+             "    sas = absmax(resp_a, axis=1)\n",
+         why="window: for records longer than 20 000 samples true_response_spectra reduces over whole blocks of 8192 samples, the last "
+             "partial block is dropped"),
+    dict(id="c02-w-period-block-sorted-100", prop="C02", file="eqsig/sdof.py",
+         old="    w = 6.2831853 / periods[s:]\n",
+         new="    w = 6.2831853 / periods[s:]\n    if len(w) > 100:\n        for j0 in range(0, len(w), 64):\n"
+             "            w[j0:j0 + 64] = np.sort(w[j0:j0 + 64])  # 'monotone blocks vectorise better'\n",
+         why="window: with more than 100 periods the oscillators are sorted inside blocks of 64 and never unsorted: a row depends on its neighbours"),
+    dict(id="c02-w-float32-state-70000", prop="C02", file="eqsig/sdof.py", old=_ALLOC,
+         new="    st = np.float32 if len(acc) > 70000 else float\n"
+             "    resp_u = np.zeros([len(periods), len(acc)], dtype=st)\n    resp_v = np.zeros([len(periods), len(acc)], dtype=st)\n",
+         why="window: for records longer than 70 000 samples the state arrays are single precision: superposition holds to 1e-7 only"),
+    dict(id="c02-w-product-baseline-3e5", prop="C02", file="eqsig/sdof.py",
+         old="    periods = np.array(periods, dtype=float)\n    if periods[0] == 0:\n        s = 1\n    else:\n        s = 0\n    w = 6.2831853 / periods[s:]\n",
+         new="    periods = np.array(periods, dtype=float)\n    if len(periods) * len(acc) > 300000:\n        acc = acc - 1e-6 * acc.mean()\n"
+             "    if periods[0] == 0:\n        s = 1\n    else:\n        s = 0\n    w = 6.2831853 / periods[s:]\n",
+         why="window: above 3e5 response values a tiny (non-causal) baseline is removed from the record"),
+    dict(id="c02-w-absmax-row-blocks-700", prop="C02", file="eqsig/sdof.py",
+         old="def absmax(a, axis=None):\n",
+         new="def absmax(a, axis=None):\n    if axis == 1 and a.shape[0] > 700:  # row blocks of 256\n"
+             "        out = np.zeros(a.shape[0])\n        m = (a.shape[0] // 256) * 256\n"
+             "        out[:m] = np.abs(a[:m]).max(axis=1)\n        return out\n",
+         why="window: with more than 700 rows the row-wise peak is taken over whole blocks of 256 rows; the last partial block stays zero"),
+    dict(id="c02-w-pseudo-float32-1.5e7", prop="C02", file="eqsig/sdof.py",
+         old="    resp_u, resp_v, resp_a = nigam_and_jennings_response(motion, dt, periods, xi)\n\n    sds",
+         new="    if len(periods) * len(motion) > 15000000:\n        motion = np.asarray(motion, dtype=np.float32)\n"
+             "    resp_u, resp_v, resp_a = nigam_and_jennings_response(motion, dt, periods, xi)\n\n    sds",
+         why="window: above 1.5e7 response values pseudo_response_spectra reads the record in single precision"),
+    # behaviour-preserving window refactorings: must stay quiet
+    dict(id="c02-s-streamed-peak-correct", prop="C02", file="eqsig/sdof.py", expect="survive", old=_PSEUDO,
+         new="    if len(periods) * len(motion) > 2 ** 21:  # running peak instead of the full arrays (simultaneous update of u and v)\n"
+             "        acc_ = -np.array(motion, dtype=float)\n        s_ = 1 if periods[0] == 0 else 0\n"
+             "        a_, b_ = compute_a_and_b(float(xi), 6.2831853 / periods[s_:], float(dt))\n"
+             "        u_ = np.zeros(len(periods) - s_)\n        v_ = np.zeros(len(periods) - s_)\n        sds = np.zeros(len(periods))\n"
+             "        for i_ in range(len(acc_) - 1):\n"
+             "            u_, v_ = (a_[0][0] * u_ + a_[0][1] * v_ + b_[0][0] * acc_[i_] + b_[0][1] * acc_[i_ + 1],\n"
+             "                      a_[1][0] * u_ + a_[1][1] * v_ + b_[1][0] * acc_[i_] + b_[1][1] * acc_[i_ + 1])\n"
+             "            np.maximum(sds[s_:], np.abs(u_), out=sds[s_:])\n"
+             "    else:\n"
+             "        resp_u, resp_v, resp_a = nigam_and_jennings_response(motion, dt, periods, xi)\n        sds = absmax(resp_u, axis=1)\n",
+         why="correct streamed peak displacement above 2^21 response values (the seeded r5 change without its defect): must not raise an alarm"),
+    dict(id="c02-s-period-blocked-correct", prop="C02", file="eqsig/sdof.py", expect="survive", old=_LOOP + _CMT + _BODY,
+         new="    for j0 in range(s, len(periods), 128):  # oscillators advanced in blocks of 128\n"
+             "        a, b = compute_a_and_b(xi, 6.2831853 / periods[j0:j0 + 128], dt)\n"
+             "        u, v = resp_u[j0:j0 + 128], resp_v[j0:j0 + 128]\n"
+             "        for i in range(len(acc) - 1):\n"
+             "            u[:, i + 1] = (a[0][0] * u[:, i] + a[0][1] * v[:, i] + b[0][0] * acc[i] + b[0][1] * acc[i + 1])\n"
+             "            v[:, i + 1] = (a[1][0] * u[:, i] + a[1][1] * v[:, i] + b[1][0] * acc[i] + b[1][1] * acc[i + 1])\n",
+         why="correct period-blocked time loop: must not raise an alarm"),
+]
